@@ -26,6 +26,12 @@ def search(pid, f):
             if name not in tried:
                 w = fn(pid, f)
                 if w: return w
+    if pid in ('C05', 'C08'):
+        w = gen_sock_timed(pid, f)
+        if w: return w
+    if pid in ('C19',):
+        w = gen_sock(pid, f)
+        if w: return w
     if pid in ('C09', 'C10', 'C12', 'C13', 'C18'):
         for (name, fn) in (('gen_framing', gen_framing), ('gen_sock', gen_sock)) + ((('gen_sock_faults', gen_sock_faults),) if pid in ('C12', 'C18', 'C09') else ()):
             if name not in tried:
@@ -103,6 +109,9 @@ def run_witness(w):
         d = {l.split(' ', 1)[0]: l.split(' ', 1)[1] for l in out if ' ' in l}
         m = re.match(r't1=(\S*) t2=(\S*) final=(\S*)', d.get('concurrent', ''))
         good = bool(m) and 'seq12' in d and ([m.group(1), m.group(2), m.group(3)] == d['seq12'].split(',') or [m.group(2), m.group(1), m.group(3)] == d['seq21'].split(','))
+        if w.get('uncond'):
+            vals = [x for x in d.get('cas-issued', '').split(',') if x]
+            if len(set(vals)) != len(vals) or '0' in vals: good = False
         return {'output': out, 'violates': not good, 'required': w.get('required')}
     if kind == 'steps':
         out = _steps(w['lines'])
@@ -325,6 +334,8 @@ def sock_pipelines():
     P.append(('answered requests, then a silent quiet one at the end', 1048576, [f_set(b'a', b'1'), noop, f_set(b'b', b'2', op=0x11)]))
     P.append(('answered requests, then the beginning of another frame', 1048576, [f_set(b'a', b'1'), noop, f_set(b'c', b'3')[:30]]))
     P.append(('answered requests, then a header with a corrupted magic byte', 1048576, [f_set(b'a', b'1'), noop, bytes(bad)]))
+    P.append(('quiet get hit at the very end', 1048576, [f_set(b'a', b'1', op=0x11), f_key(0x09, b'a')]))
+    P.append(('quiet get hit, then quitq', 1048576, [f_set(b'a', b'1', op=0x11), f_key(0x0d, b'a'), hdr(0x17)]))
     P.append(('setq x3 then get', 1048576, [f_set(b'a', b'1', op=0x11), f_set(b'b', b'2', op=0x11), f_set(b'c', b'3', op=0x11), f_key(0, b'b')]))
     return P
 
@@ -460,6 +471,39 @@ def gen_sock_correlation(pid, f):
 gen_sock_correlation.last_count = 0
 
 # ------------------------------------------------------------------------------------------------
+# C05 / C08 over TCP with the server clock under control (`tick`): phases of pipelined requests, each sent in ONE
+# segment, separated by clock advances.  Expectation = the socket-less request path fed the same phases and ticks.
+def sock_timed_pipelines():
+    noop = hdr(0x0a, opaque=0x0c0c0c0c)
+    P = []
+    P.append(('store, delayed flush and a later store in one segment; reads after the deadline',
+              [[f_set(b'a', b'1'), f_flush(5), f_set(b'b', b'2')], 10, [f_key(0, b'a'), f_key(0, b'b'), noop]]))
+    P.append(('quiet variant of the same', [[f_set(b'a', b'1', op=0x11), f_flush(5, op=0x18), f_set(b'b', b'2', op=0x11)], 10, [f_key(0, b'a'), f_key(0, b'b'), noop]]))
+    P.append(('identical re-store restarts the ttl', [[f_set(b'a', b'1', exp=5)], 4, [f_set(b'a', b'1', exp=5)], 3, [f_key(0, b'a'), noop], 2, [f_key(0, b'a'), noop]]))
+    P.append(('immediate flush, then stores', [[f_set(b'a', b'1'), f_flush(), f_set(b'b', b'2'), f_key(0, b'a'), f_key(0, b'b')], 100, [f_key(0, b'b'), noop]]))
+    return P
+
+def gen_sock_timed(pid, f):
+    gen_sock_timed.last_count = 0
+    for name, phases in sock_timed_pipelines():
+        sess = ['limit 1048576']; lines = ['limit 1048576']
+        for ph in phases:
+            if isinstance(ph, int):
+                sess.append('tick %d' % ph); lines += ['sleep 60', 'tick %d' % ph]
+            else:
+                sess += ['feed ' + x.hex() for x in ph]; lines += ['send ' + b''.join(ph).hex()]
+        lines += ['recv 400']
+        ev = replaytool.run_session(sess)
+        want = ''.join(e[5:] for e in ev if e.startswith('resp '))
+        gen_sock_timed.last_count += 1
+        got, eof = _sock_stable(lines, want)
+        if got != want:
+            return {'kind': 'sock', 'lines': lines, 'expect_recv': want, 'what': 'timed pipeline "%s": the server answers %s..., the request path requires %s...' % (name, got[-96:], want[-96:]),
+                    'required': 'the responses equal those of decode -> handler -> encode fed the same requests and clock advances'}
+    return None
+gen_sock_timed.last_count = 0
+
+# ------------------------------------------------------------------------------------------------
 # C15 (and C01 with "random eviction, limit not reached"): a workload that only stores NEW keys, deletes (cas 0,
 # matching, stale), and reads - the operations whose accounting memc-rs gets right - under a limit far above the live
 # set must never lose a live key.  (Overwrites, rejected stores, flushes and expiries are the open known findings.)
@@ -468,7 +512,8 @@ def gen_policy(pid, f):
     import random, os
     rng = random.Random(int(os.environ.get('VERIF_SEED', '0') or 0))
     V = b'v' * 100
-    for variant in ('cas0', 'matching', 'stale', 'mixed'):
+    for variant in ('cas0', 'matching', 'stale', 'mixed', 'cas0+add', 'mixed+add'):
+        use_add = variant.endswith('+add'); variant = variant.split('+')[0]
         lines = ['policy random 8192']
         live = {}
         serial = 0
@@ -476,7 +521,7 @@ def gen_policy(pid, f):
         for step in range(900):
             if len(live) < 8:
                 k = b'k%d' % serial; serial += 1
-                lines.append('feed ' + f_set(k, V, op=0x11).hex()); live[k] = serial  # CAS of a fresh store == counter value
+                lines.append('feed ' + f_set(k, V, op=(0x12 if (use_add and serial % 2 == 0) else 0x11)).hex()); live[k] = serial  # CAS of a fresh store == counter value (new keys also through addq)
             else:
                 k = rng.choice(sorted(live))
                 mode = variant if variant != 'mixed' else rng.choice(['cas0', 'matching', 'stale'])
@@ -609,7 +654,14 @@ def gen_steps_lin(pid, f):
                 for park in range(1, n + 1):
                     for b in t2s:
                         jobs.append((pol, iname, a, park, b, pre + ['t1 ' + a, 'park %d' % park, 't2 ' + b, 'final get k']))
-    def lin(out):
+    def uncond(op):   # the CAS of an acknowledged mutation comes from the store's counter unless the request carried one for an absent key
+        w = op.split()
+        return not (w[0] == 'set' and len(w) > 3 and w[3] != '0') and not (w[0] == 'delete' and len(w) > 2 and w[2] != '0')
+    def lin(out, j=None):
+        for l in out:
+            if l.startswith('cas-issued') and j is not None and uncond(j[2]) and uncond(j[4]):
+                vals = [x for x in l.split(' ', 1)[1].split(',') if x] if ' ' in l else []
+                if len(set(vals)) != len(vals) or '0' in vals: return False     # two acknowledged mutations carry the same CAS
         d = {l.split(' ', 1)[0]: l.split(' ', 1)[1] for l in out if ' ' in l}
         m = re.match(r't1=(\S*) t2=(\S*) final=(\S*)', d.get('concurrent', ''))
         if not m or 'seq12' not in d: return False
@@ -619,15 +671,18 @@ def gen_steps_lin(pid, f):
     gen_steps_lin.last_count = len(jobs)
     with ThreadPoolExecutor(8) as ex:
         for j, out in ex.map(run, jobs):
-            if not lin(out) and not lin(_steps(j[5])):
-                return {'kind': 'steps-lin', 'lines': j[5], 'required': 'the concurrent outcome equals one of the two sequential orders (the real code is its own oracle)',
-                        'what': 'policy %s, initial state %s: thread 1 `%s` parked before its step #%d while thread 2 runs `%s`: outcome matches neither sequential order' % (j[0], j[1], j[2], j[3], j[4])}
+            if not lin(out, j) and not lin(_steps(j[5]), j):
+                return {'kind': 'steps-lin', 'lines': j[5], 'required': 'the concurrent outcome equals one of the two sequential orders (the real code is its own oracle) and no two acknowledged mutations carry the same CAS', 'uncond': uncond(j[2]) and uncond(j[4]),
+                        'what': 'policy %s, initial state %s: thread 1 `%s` parked before its step #%d while thread 2 runs `%s`: outcome matches neither sequential order (or two acknowledged mutations carry the same CAS)' % (j[0], j[1], j[2], j[3], j[4])}
     return None
 gen_steps_lin.last_count = 0
 
 # Bounded stand-ins registered per property in specs/properties.json (`bounded_twins`): for functions that no contract
 # within reach covers.  Labelled bounded in the evidence; never counted as proved.
 BOUNDED_TWINS = {
+    'steps_lin': {'gen': gen_steps_lin, 'fn': 'RandomPolicy and MemcStore under interference (the interference contracts of unit conc cover MemoryStore only)',
+                  'bound': 'two threads, get/set/delete/flush on one key, 4 initial states x 2 policies, thread 1 parked before each of its Cache-layer / clock calls (about 1000 schedules)',
+                  'what': 'the concurrent outcome equals one of the two sequential orders and no two acknowledged mutations carry the same CAS'},
     'steps': {'gen': gen_steps, 'fn': 'interleavings of MemcStore / RandomPolicy / MemoryStore calls (no contract expresses lock order across threads)',
               'bound': 'two threads; thread 1 parked before each of its calls through the Cache trait layers or to the clock; 15 commands x 3-5 initial states x 2 policies for thread 1, 6 commands for thread 2 (tools/witness.py:steps_grid)',
               'what': 'every command returns under every step-level two-thread schedule of the grid'},
